@@ -243,6 +243,13 @@ pub fn lex(text: &str) -> Option<Vec<Tok>> {
                 let ws_only = prev2[0] || prev2[1] || after_value;
                 after_value = prev2[1] && !matches!(tok, Token::Semicolon);
                 prev2 = [is_pragma, prev2[0] && is_ident];
+                if after_value {
+                    // a pragma's value: one raw string for the lexer, white-space separated tokens for us
+                    for part in text[s..e].split_whitespace() {
+                        out.push(Tok { s: part.to_string(), ws_only_before: true });
+                    }
+                    continue;
+                }
                 out.push(Tok { s: text[s..e].to_string(), ws_only_before: ws_only });
             }
             Err(_) => return None,
